@@ -478,7 +478,7 @@ def run_check(modname, tier, seed=0):
             errors.append({'what': 'counterexample did not reproduce concretely', **u})
         for e in st['errors']:
             errors.append(e)
-        if st['checks'] == 0 and not st['cex'] and not st['errors'] and leftover.get(h.name, 0) == 0:
+        if st['checks'] == 0 and not st['cex'] and not st['errors'] and not st['inconclusive'] and leftover.get(h.name, 0) == 0:
             errors.append({'what': 'vacuous harness: no obligation reached on any path', 'harness': h.name})
     # expected labels (reachability twins): every label listed by the module must have been reached
     for lab in getattr(mod, 'MUST_REACH', []):
